@@ -120,6 +120,10 @@ impl AsyncFileSystem for AsyncOverlayFS {
     }
 
     async fn create_dir(&self, path: &str) -> VfsResult<()> {
+        if path.is_empty() {
+            // the root always exists
+            return Err(VfsErrorKind::DirectoryExists.into());
+        }
         self.ensure_has_parent(path).await?;
         if self.exists(path).await? {
             // the entry may exist only in a lower layer, where the write layer cannot see it
